@@ -51,22 +51,33 @@ func (w *World) Reload(l *ipfslog.IPFSLog, loader string, ident int, lo *LoadOpt
 	panic("bad loader " + loader)
 }
 
+// loaderOpts: fresh options per call, or - for worlds with ReuseOptions - one value the caller keeps reusing.
+func (w *World) loaderOpts() *ipfslog.LogOptions {
+	if !w.ReuseOptions {
+		return w.LogOpts(w.LogID)
+	}
+	if w.sharedOpts == nil {
+		w.sharedOpts = w.LogOpts(w.LogID)
+	}
+	return w.sharedOpts
+}
+
 func (w *World) LoadManifest(c cid.Cid, ident int, lo *LoadOpts) (*ipfslog.IPFSLog, error) {
-	return ipfslog.NewFromMultihash(w.Ctx, w.Store.API(), w.Idents[ident], c, w.LogOpts(w.LogID),
+	return ipfslog.NewFromMultihash(w.Ctx, w.Store.API(), w.Idents[ident], c, w.loaderOpts(),
 		&ipfslog.FetchOptions{Length: lo.Length, Concurrency: lo.Concurrency, Exclude: lo.Exclude, ShouldExclude: lo.ShouldExcl, Timeout: dur(lo.TimeoutMs)})
 }
 
 func (w *World) LoadJSON(j *iface.JSONLog, ident int, lo *LoadOpts) (*ipfslog.IPFSLog, error) {
-	return ipfslog.NewFromJSON(w.Ctx, w.Store.API(), w.Idents[ident], j, w.LogOpts(w.LogID),
+	return ipfslog.NewFromJSON(w.Ctx, w.Store.API(), w.Idents[ident], j, w.loaderOpts(),
 		&entry.FetchOptions{Length: lo.Length, Concurrency: lo.Concurrency, Timeout: dur(lo.TimeoutMs)})
 }
 
 func (w *World) LoadEntries(heads []iface.IPFSLogEntry, ident int, lo *LoadOpts) (*ipfslog.IPFSLog, error) {
-	return ipfslog.NewFromEntry(w.Ctx, w.Store.API(), w.Idents[ident], append([]iface.IPFSLogEntry(nil), heads...), w.LogOpts(w.LogID),
+	return ipfslog.NewFromEntry(w.Ctx, w.Store.API(), w.Idents[ident], append([]iface.IPFSLogEntry(nil), heads...), w.loaderOpts(),
 		&entry.FetchOptions{Length: lo.Length, Concurrency: lo.Concurrency, Exclude: lo.Exclude, Timeout: dur(lo.TimeoutMs)})
 }
 
 func (w *World) LoadHash(c cid.Cid, ident int, lo *LoadOpts) (*ipfslog.IPFSLog, error) {
-	return ipfslog.NewFromEntryHash(w.Ctx, w.Store.API(), w.Idents[ident], c, w.LogOpts(w.LogID),
+	return ipfslog.NewFromEntryHash(w.Ctx, w.Store.API(), w.Idents[ident], c, w.loaderOpts(),
 		&ipfslog.FetchOptions{Length: lo.Length, Concurrency: lo.Concurrency, Exclude: lo.Exclude, ShouldExclude: lo.ShouldExcl, Timeout: dur(lo.TimeoutMs)})
 }
